@@ -22,6 +22,7 @@ import (
 	"crypto/elliptic"
 	"crypto/sha256"
 	"crypto/x509"
+	"encoding/asn1"
 	"encoding/hex"
 	"encoding/json"
 	"encoding/pem"
@@ -575,8 +576,8 @@ func tcbInfoFacts(body []byte) tiFacts {
 	if t, err := time.Parse(pcs.TimestampFormat, ti.IssueDate); err == nil {
 		f.issue = &t
 	}
-	f.enc = fmt.Sprintf("%s|%d|%s|%s|%s|%d|%s|%s", hx([]byte(ti.ID)), ti.Version, parseT(ti.IssueDate), next,
-		hx([]byte(ti.FMSPC)), ti.TCBEvaluationDataNumber, join(lv), join(mods))
+	f.enc = fmt.Sprintf("%s|%d|%s|%s|%s|%d|%s|%s|%s", hx([]byte(ti.ID)), ti.Version, parseT(ti.IssueDate), next,
+		hx([]byte(ti.FMSPC)), ti.TCBEvaluationDataNumber, join(lv), join(mods), hx([]byte(ti.PCEID)))
 	return f
 }
 
@@ -623,6 +624,30 @@ func pemCerts(data []byte) ([]*x509.Certificate, bool) {
 	return certs, true
 }
 
+// pckPceID extracts the PCE-ID (SGX extension 1.2.840.113741.1.13.1.3) of a PCK certificate.
+// The pcs package does not; the property's "collateral belongs to the platform" clause needs it.
+func pckPceID(c *x509.Certificate) []byte {
+	for _, ext := range c.Extensions {
+		if !ext.Id.Equal(pcs.PCK_SGX_Extensions) {
+			continue
+		}
+		var exts []pcs.SGXExtension
+		if _, err := asn1.Unmarshal(ext.Value, &exts); err != nil {
+			return nil
+		}
+		for _, e := range exts {
+			if e.Id.Equal(asn1.ObjectIdentifier{1, 2, 840, 113741, 1, 13, 1, 3}) {
+				var v []byte
+				if _, err := asn1.Unmarshal(e.Value.FullBytes, &v); err == nil {
+					return v
+				}
+			}
+		}
+		return nil
+	}
+	return nil
+}
+
 func certsEnc(certs []*x509.Certificate, exts map[int]string) string {
 	if len(certs) == 0 {
 		return "-"
@@ -634,7 +659,11 @@ func certsEnc(certs []*x509.Certificate, exts map[int]string) string {
 		if e, ok := exts[i]; ok {
 			ext = e
 		}
-		s[i] = fmt.Sprintf("%s:%s:%s", certID(c), pk, ext)
+		pce := "~"
+		if p := pckPceID(c); len(p) > 0 {
+			pce = hex.EncodeToString(p)
+		}
+		s[i] = fmt.Sprintf("%s:%s:%s:%s", certID(c), pk, ext, pce)
 	}
 	return strings.Join(s, ";")
 }
@@ -679,6 +708,7 @@ type facts struct {
 	ti        tiFacts
 	qi        qiFacts
 	pckFmspc  []byte
+	pckPceID  []byte
 	allLinks  bool // every signature / chain / hash link re-evaluated true
 	linkFails []string
 }
@@ -737,6 +767,9 @@ func modelLine(c *Case, o *implOut, withRaw bool) (f facts) {
 		pckx := "fail"
 		if len(p.Chain) >= 2 {
 			pckx = x509Verdict(p.Chain[0], p.Chain[1], ts)
+		}
+		if len(p.Chain) >= 1 {
+			f.pckPceID = pckPceID(p.Chain[0])
 		}
 		if len(p.Chain) == 3 {
 			_, pckPk = pkID(p.Chain[0])
@@ -955,6 +988,14 @@ func specCheck(c *Case, o *implOut, f *facts) (sig, detail string) {
 	if f.parts.TeeType == uint32(pcs.TeeTypeTDX) && pol.TDX == nil {
 		return "accepted-tdx-not-allowed", "TDX quote accepted without TDX policy"
 	}
+	// K2: the black list read as a list of platforms (decoded FMSPC), not of strings.
+	if fm, err := hex.DecodeString(f.ti.info.FMSPC); err == nil {
+		for _, b := range pol.FMSPCBlacklist {
+			if bb, err := hex.DecodeString(b); err == nil && bytes.Equal(bb, fm) {
+				return "fmspc-blacklist-case-bypass", fmt.Sprintf("accepted although the FMSPC black list contains %q and the TCB info's FMSPC is %q", b, f.ti.info.FMSPC)
+			}
+		}
+	}
 	// (5) Collateral belongs to the platform and TEE type.
 	fm, err := hex.DecodeString(f.ti.info.FMSPC)
 	if err != nil || !bytes.Equal(fm, f.pckFmspc) {
@@ -966,6 +1007,10 @@ func specCheck(c *Case, o *implOut, f *facts) (sig, detail string) {
 	}
 	if f.ti.info.ID != wantTi || f.qi.info.ID != wantQi {
 		return "accepted-foreign-collateral", "collateral of the other TEE type accepted"
+	}
+	// K1: the TCB info is for the PCE of the quote's PCK certificate.
+	if pce, err := hex.DecodeString(f.ti.info.PCEID); err != nil || len(f.pckPceID) == 0 || !bytes.Equal(pce, f.pckPceID) {
+		return "foreign-collateral-pceid-accepted", fmt.Sprintf("accepted although the TCB info is for pceId %q and the PCK certificate's PCE-ID is %X", f.ti.info.PCEID, f.pckPceID)
 	}
 	return "", ""
 }
@@ -1165,6 +1210,8 @@ func pemBlocks(data []byte) [][]byte {
 // ---------------------------------------------------------------------------- main
 
 type runner struct {
+	sigCount map[string]int
+	specSigs []string // spec signature per batched case ("" if none), compared with the model's notes
 	emitDir  string
 	emitted  map[string]bool
 	res      *hlib.Result
@@ -1176,6 +1223,19 @@ type runner struct {
 	n        int
 }
 
+// fail records a failure, at most three per signature so that a known finding that occurs
+// in many generated cases cannot crowd out a new one.
+func (rn *runner) fail(f hlib.Failure) {
+	if rn.sigCount == nil {
+		rn.sigCount = map[string]int{}
+	}
+	rn.sigCount[f.Sig]++
+	rn.res.Count("failure:" + f.Sig)
+	if rn.sigCount[f.Sig] <= 3 {
+		rn.res.Fail(f)
+	}
+}
+
 func (rn *runner) add(c *Case) {
 	rn.n++
 	o := runImpl(c)
@@ -1184,7 +1244,7 @@ func (rn *runner) add(c *Case) {
 	rn.res.Count("gen:" + c.Tag)
 	if o.panicked != "" {
 		rn.res.Count("impl:panic")
-		rn.res.Fail(hlib.Failure{Kind: "panic", Detail: "pcs verification panicked: " + o.panicked, Case: []string{c.Line()}, Sig: "panic"})
+		rn.fail(hlib.Failure{Kind: "panic", Detail: "pcs verification panicked: " + o.panicked, Case: []string{c.Line()}, Sig: "panic"})
 		return
 	}
 	if o.att != "" {
@@ -1205,7 +1265,7 @@ func (rn *runner) add(c *Case) {
 		rn.res.Count("impl:" + o.res)
 		if strings.HasSuffix(o.res, ":?") {
 			rn.res.Count("impl:unmapped-error")
-			rn.res.Fail(hlib.Failure{Kind: "divergence", Detail: "harness cannot classify the error: " + o.errText, Case: []string{c.Line()}, Sig: "unmapped-error"})
+			rn.fail(hlib.Failure{Kind: "divergence", Detail: "harness cannot classify the error: " + o.errText, Case: []string{c.Line()}, Sig: "unmapped-error"})
 		}
 	}
 	withRaw := o.parseErr != "" || strings.HasPrefix(c.Tag, "quote") || rn.n%rn.rawEvery == 0
@@ -1213,7 +1273,7 @@ func (rn *runner) add(c *Case) {
 	func() {
 		defer func() {
 			if r := recover(); r != nil {
-				rn.res.Fail(hlib.Failure{Kind: "panic", Detail: fmt.Sprint("harness re-evaluation panicked: ", r), Case: []string{c.Line()}, Sig: "harness-panic"})
+				rn.fail(hlib.Failure{Kind: "panic", Detail: fmt.Sprint("harness re-evaluation panicked: ", r), Case: []string{c.Line()}, Sig: "harness-panic"})
 			}
 		}()
 		f = modelLine(c, &o, withRaw)
@@ -1221,9 +1281,15 @@ func (rn *runner) add(c *Case) {
 	if f.line == "" {
 		return
 	}
+	specSig := ""
 	if o.parseErr == "" {
 		if sig, d := specCheck(c, &o, &f); sig != "" {
-			rn.res.Fail(hlib.Failure{Kind: "spec", Detail: d, Case: []string{c.Line()}, Sig: sig})
+			specSig = sig
+			if rn.emitDir != "" && !rn.emitted["sig-"+sig] && (c.Tag == "policy" || sig == "foreign-collateral-pceid-accepted") {
+				rn.emitted["sig-"+sig] = true
+				_ = os.WriteFile(rn.emitDir+"/sig-"+sig+".txt", []byte("# "+sig+": "+d+"\n"+c.Line()+"\n"), 0o644)
+			}
+			rn.fail(hlib.Failure{Kind: "spec", Detail: d, Case: []string{c.Line()}, Sig: sig})
 		}
 		key := sha256.Sum256([]byte(f.line))
 		if !rn.seen[key] && o.res != "reject:parse" {
@@ -1236,6 +1302,7 @@ func (rn *runner) add(c *Case) {
 		rn.emitted[c.Tag] = true
 		_ = os.WriteFile(rn.emitDir+"/accepted-"+c.Tag+".txt", []byte("# accepted "+c.Tag+" case (result identical to the genuine quote's)\n"+c.Line()+"\n"), 0o644)
 	}
+	rn.specSigs = append(rn.specSigs, specSig)
 	rn.batch = append(rn.batch, f.line)
 	rn.cases = append(rn.cases, c)
 	rn.impls = append(rn.impls, o)
@@ -1257,11 +1324,18 @@ func (rn *runner) flush() {
 	}
 	ans, err := hlib.RunModel("pcs", rn.batch)
 	if err != nil {
-		rn.res.Fail(hlib.Failure{Kind: "divergence", Detail: "model-error: " + err.Error(), Sig: "model-error"})
+		rn.fail(hlib.Failure{Kind: "divergence", Detail: "model-error: " + err.Error(), Sig: "model-error"})
 	} else {
 		for i, a := range ans {
 			if strings.HasPrefix(a, "ok") {
 				rn.res.Count("model:agree")
+				// The model evaluates the spec-only clauses (K1, K2) too; it must flag exactly the
+				// inputs the harness flags.
+				mp, mb := has(a, "spec=pceid"), has(a, "spec=blacklist-case")
+				hp, hb := rn.specSigs[i] == "foreign-collateral-pceid-accepted", rn.specSigs[i] == "fmspc-blacklist-case-bypass"
+				if (mp || mb) != (hp || hb) || (hp && !mp) || (hb && !mb) {
+					rn.fail(hlib.Failure{Kind: "divergence", Detail: fmt.Sprintf("spec predicate: model `%s`, harness `%s`", a, rn.specSigs[i]), Case: []string{rn.cases[i].Line()}, Sig: "spec-predicate-mismatch"})
+				}
 				continue
 			}
 			o := rn.impls[i]
@@ -1285,10 +1359,10 @@ func (rn *runner) flush() {
 				kind = "spec"
 				sig = "result-differs-from-signed-body"
 			}
-			rn.res.Fail(hlib.Failure{Kind: kind, Detail: a + " err=" + o.errText + o.parseErr, Case: []string{rn.cases[i].Line()}, Sig: sig})
+			rn.fail(hlib.Failure{Kind: kind, Detail: a + " err=" + o.errText + o.parseErr, Case: []string{rn.cases[i].Line()}, Sig: sig})
 		}
 	}
-	rn.batch, rn.cases, rn.impls = nil, nil, nil
+	rn.batch, rn.cases, rn.impls, rn.specSigs = nil, nil, nil, nil
 }
 
 func main() {
@@ -1322,7 +1396,7 @@ func main() {
 		res.Count("baseline:" + v.Name + ":" + strings.SplitN(o.res, ":", 3)[0] + ":" + strings.SplitN(o.res+":", ":", 3)[1][:min(12, len(strings.SplitN(o.res+":", ":", 3)[1]))])
 	}
 	if !vectors[0].Accepted || !vectors[1].Accepted {
-		res.Fail(hlib.Failure{Kind: "divergence", Detail: "a recorded good vector no longer verifies: " + vectors[0].Result + " / " + vectors[1].Result, Sig: "good-vector-rejected"})
+		rn.fail(hlib.Failure{Kind: "divergence", Detail: "a recorded good vector no longer verifies: " + vectors[0].Result + " / " + vectors[1].Result, Sig: "good-vector-rejected"})
 	}
 
 	if *replay != "" {
